@@ -1,5 +1,6 @@
 import Ftp.Model.Reader
 import Ftp.Lemmas.Utils
+import Ftp.Lemmas.ReaderTotal
 /-
   C08 (control-reader part) - whatever bytes the server sends and wherever it closes or fails, a receive step ends
   in a reply or an error; it never spins once the transport has reported the end, never buffers more than 8192
@@ -10,36 +11,36 @@ namespace Ftp.Props.C08
 open Ftp Ftp.Reader Ftp.Utils
 
 /-- reading one line always terminates within the fuel the model supplies -/
-theorem readLine_total (buf : Bytes) (net : Net) : (readLine buf net).1 ≠ .fuel := by
-  sorry
+theorem readLine_total (buf : Bytes) (net : Net) : (readLine buf net).1 ≠ .fuel :=
+  (readLine_spec_T buf net).1
 
 /-- a receive step always terminates within the fuel the model supplies: for every buffer content, every remaining
     server output, every delivery schedule and both ways the transport can end -/
-theorem recv_total (c : Ctl) (net : Net) : (recv c net).1 ≠ .fuel := by
-  sorry
+theorem recv_total (c : Ctl) (net : Net) : (recv c net).1 ≠ .fuel :=
+  (recv_spec c net).1
 
 /-- once the transport has reported the end of the stream (end-of-file or an error), the step ends: the transport is
     asked at most once more -/
-theorem recv_reads_at_end (c : Ctl) (net : Net) : (recv c net).2.2.readsAtEnd ≤ net.readsAtEnd + 1 := by
-  sorry
+theorem recv_reads_at_end (c : Ctl) (net : Net) : (recv c net).2.2.readsAtEnd ≤ net.readsAtEnd + 1 :=
+  (recv_spec c net).2.1
 
 /-- ... and a step that hit the end reports an error (it does not return an empty or partial reply) -/
 theorem recv_end_is_error (c : Ctl) (net : Net) (h : (recv c net).2.2.readsAtEnd = net.readsAtEnd + 1) :
-    (recv c net).1 = .error := by
-  sorry
+    (recv c net).1 = .error :=
+  (recv_spec c net).2.2.1 h
 
 /-- the buffer never grows beyond 8192 bytes -/
 theorem buffer_bounded (c : Ctl) (net : Net) (h : c.buf.length ≤ maxLine) :
-    (recv c net).2.1.buf.length ≤ maxLine := by
-  sorry
+    (recv c net).2.1.buf.length ≤ maxLine :=
+  (recv_spec c net).2.2.2 h
 
 /-- a control line that exceeds 8192 bytes without a terminator is refused, and nothing beyond the 8192 bytes is taken
     from the transport -/
 theorem long_line_refused (c : Ctl) (net : Net) (hb : c.buf.length ≤ maxLine)
     (hlen : maxLine ≤ (c.buf ++ net.stream).length)
     (hno : ∀ b ∈ (c.buf ++ net.stream).take maxLine, b ≠ CR ∧ b ≠ LF) :
-    (recv c net).1 = .error ∧ (recv c net).2.1.buf = (c.buf ++ net.stream).take maxLine := by
-  sorry
+    (recv c net).1 = .error ∧ (recv c net).2.1.buf = (c.buf ++ net.stream).take maxLine :=
+  recv_long c net hb hlen hno
 
 /-- decimal fields are never wrapped: a parsed value is the decimal value of the digits written and fits the type -/
 theorem no_wrap (s : Bytes) (n : Nat) :
@@ -47,7 +48,19 @@ theorem no_wrap (s : Bytes) (n : Nat) :
     (parseU16 s = some n → isDigits s = true ∧ n = decValue s ∧ n < 2 ^ 16) ∧
     (parseU32 s = some n → isDigits s = true ∧ n = decValue s ∧ n < 2 ^ 32) ∧
     (parseU64 s = some n → isDigits s = true ∧ n = decValue s ∧ n < 2 ^ 64) := by
-  sorry
+  refine ⟨?_, ?_, ?_, ?_⟩
+  · rw [parseU8_spec]; split
+    · rename_i hc; intro h; cases h; exact ⟨hc.1, rfl, by have := hc.2; omega⟩
+    · intro h; cases h
+  · rw [parseU16_spec]; split
+    · rename_i hc; intro h; cases h; exact ⟨hc.1, rfl, by have := hc.2; omega⟩
+    · intro h; cases h
+  · rw [parseU32_spec]; split
+    · rename_i hc; intro h; cases h; exact ⟨hc.1, rfl, by have := hc.2; omega⟩
+    · intro h; cases h
+  · rw [parseU64_spec]; split
+    · rename_i hc; intro h; cases h; exact ⟨hc.1, rfl, by have := hc.2; unfold u64max at this; omega⟩
+    · intro h; cases h
 
 /-- the defect that was repaired: the server closes inside a multi-line reply -/
 example : (recv {} { stream := str "220-a\r\n", sizes := [], fin := .eof }).1 = .error ∧
